@@ -227,7 +227,28 @@ def patterns_of(prog, f, operand, depth=0):
         owner, l = mir.owner_local_of_upvar(prog, f, operand)
         if owner is not None and l is not None:
             return patterns_of(prog, owner, {'k': 'copy', 'pl': {'l': l, 'p': []}}, depth)
-    if o.params and depth < 3:
+    if o.params and depth < 4:
+        # a closure (or a function value) handed to an iterator / Option adaptor: its item comes out of the adaptor's receiver
+        recv = []
+        if f.kind == 'Closure' and not (o.params & {1}):
+            recv = [(parent, hc.args[0]) for (parent, hc, ai) in mir.handed_to(prog, f) if ai >= 1 and hc.args and
+                    (hc.decl.startswith('std::iter::') or hc.decl.startswith('std::option::Option::'))]
+        elif f.kind in ('Fn', 'AssocFn'):
+            for g in prog.product_fns():
+                if g.crate != f.crate:
+                    continue
+                for hc in g.calls:
+                    if (hc.decl.startswith('std::iter::') or hc.decl.startswith('std::option::Option::')) and len(hc.args) > 1 and \
+                            any(a.get('k') == 'const' and f.name.split('::')[-1] in (a.get('ty', '') + a.get('v', '') + a.get('def', '')) and
+                                f.name in (a.get('def', '') or a.get('ty', '') or '') for a in hc.args[1:]):
+                        recv.append((g, hc.args[0]))
+        if recv:
+            for (g, op) in recv:
+                ps, why = patterns_of(prog, g, op, depth + 1)
+                if not ps:
+                    return None, why
+                out += ps
+            return out, ''
         sites = [s for s in prog.callers.get(f.name, []) if not mir.is_testsupport(s.fn.name) and not s.inlined]
         if not sites:
             return None, 'no caller of %s' % f.name
